@@ -98,7 +98,7 @@ func C18(p *core.Program, r *core.Report) {
 
 	g := newGuardedEngine(p)
 	n := g.checkGuarded(r, sprayGuarded, true)
-	r.Min("accesses to spray bundleData", 14)
+	r.Min("accesses to spray bundleData", 8)
 	r.Count("accesses to spray bundleData", n)
 
 	type expect struct {
